@@ -6,6 +6,7 @@ package main
 // select the right comparator.
 
 import (
+	"os"
 	"fmt"
 	"go/ast"
 	"go/constant"
@@ -139,6 +140,7 @@ func runC09(c *Ctx, r *Report) {
 	c09SortFlags(c, r)
 	c09Spill(c, r)
 	c09NoSubtraction(c, r)
+	c09KeptRecordsEmitted(c, r)
 }
 
 // ---- R09.3 -------------------------------------------------------------------
@@ -469,4 +471,147 @@ func c09NoSubtraction(c *Ctx, r *Report) {
 			fmt.Sprintf("%s computes the integer difference of the two values it orders (%s): for operands of opposite sign and large magnitude the difference wraps and the larger value sorts first", SSAName(fn), bad))
 	}
 	r.Floor("R09.7", "order kernels and comparators", n, 10)
+}
+
+// ---- R09.8 ------------------------------------------------------------------
+// What a verb keeps, it gives back at end of stream — on every path.
+func c09KeptRecordsEmitted(c *Ctx, r *Report) {
+	r.Rule("R09.8", "what a verb keeps it gives back: when a verb's record function appends incoming records to a slice field of the verb (records set aside: lacking a key, waiting for the end), then on every path through its end-of-stream branch that field is read before the function returns — an early return ('nothing to sort') that skips it drops those records")
+	n := 0
+	for _, fn := range c.ModuleFunctions() {
+		if fn.Pkg == nil || !strings.HasSuffix(fn.Pkg.Pkg.Path(), "/pkg/transformers") || len(fn.Params) == 0 {
+			continue
+		}
+		recv := fn.Params[0]
+		// the receiver, or a reload of it from the cell it lives in when a closure captures it
+		isRecv := func(v ssa.Value) bool {
+			if v == recv {
+				return true
+			}
+			if ld, ok := v.(*ssa.UnOp); ok && ld.Op == token.MUL {
+				if al, ok := ld.X.(*ssa.Alloc); ok {
+					for _, ref := range *al.Referrers() {
+						if st, ok := ref.(*ssa.Store); ok && st.Addr == al && st.Val != recv {
+							return false
+						}
+					}
+					for _, ref := range *al.Referrers() {
+						if st, ok := ref.(*ssa.Store); ok && st.Addr == al && st.Val == recv {
+							return true
+						}
+					}
+				}
+			}
+			return false
+		}
+		// slice fields of the receiver that get a record appended
+		kept := map[int]string{}
+		for _, b := range fn.Blocks {
+			for _, in := range b.Instrs {
+				st, ok := in.(*ssa.Store)
+				if !ok {
+					continue
+				}
+				fa, ok := st.Addr.(*ssa.FieldAddr)
+				if !ok || !isRecv(fa.X) {
+					continue
+				}
+				call, ok := st.Val.(*ssa.Call)
+				if !ok {
+					continue
+				}
+				if bi, ok := call.Call.Value.(*ssa.Builtin); !ok || bi.Name() != "append" {
+					continue
+				}
+				ts := call.Type().String()
+				if !(strings.Contains(ts, "RecordAndContext") || strings.Contains(ts, "Mlrmap")) {
+					continue
+				}
+				stt := fa.X.Type().Underlying().(*types.Pointer).Elem().Underlying().(*types.Struct)
+				kept[fa.Field] = stt.Field(fa.Field).Name()
+			}
+		}
+		if len(kept) == 0 {
+			continue
+		}
+		if os.Getenv("MLRLINT_DEBUG") != "" {
+			fmt.Fprintf(os.Stderr, "KEPT %s %v\n", SSAName(fn), kept)
+		}
+		// the end-of-stream branch
+		var eosBlock *ssa.BasicBlock
+		for _, b := range fn.Blocks {
+			iff, ok := b.Instrs[len(b.Instrs)-1].(*ssa.If)
+			if !ok {
+				continue
+			}
+			cond, pol := stripNot(iff.Cond, true)
+			// the verb's own input record (a parameter), not a record it reads itself from elsewhere
+			if base, name, ok := fieldLoadName(cond); ok && name == "EndOfStream" && isParamOf(base, fn) {
+				if pol {
+					eosBlock = b.Succs[0]
+				} else {
+					eosBlock = b.Succs[1]
+				}
+			}
+		}
+		if eosBlock == nil {
+			continue
+		}
+		for fi, fname := range kept {
+			n++
+			key := fmt.Sprintf("%s: field %s", SSAName(fn), fname)
+			// every path from eosBlock to a return loads the field
+			bad := ""
+			var walk func(b *ssa.BasicBlock, seen map[*ssa.BasicBlock]bool)
+			walk = func(b *ssa.BasicBlock, seen map[*ssa.BasicBlock]bool) {
+				if bad != "" || seen[b] {
+					return
+				}
+				seen2 := map[*ssa.BasicBlock]bool{}
+				for k := range seen {
+					seen2[k] = true
+				}
+				seen2[b] = true
+				for _, in := range b.Instrs {
+					switch x := in.(type) {
+					case *ssa.FieldAddr:
+						if isRecv(x.X) && x.Field == fi {
+							return // read (or reset) here
+						}
+					case *ssa.Return:
+						bad = c.Rel(x.Pos())
+						return
+					}
+				}
+				for _, s := range b.Succs {
+					walk(s, seen2)
+				}
+			}
+			walk(eosBlock, map[*ssa.BasicBlock]bool{})
+			r.Check(bad == "", "R09.8", key, c.Rel(fn.Pos()), "read on every end-of-stream path",
+				fmt.Sprintf("%s sets records aside in %s, but its end-of-stream branch has a path to the return at %s that never looks at that field: the records kept there are dropped", SSAName(fn), fname, bad))
+		}
+	}
+	r.Floor("R09.8", "record-holding slice fields with an end-of-stream branch", n, 3)
+}
+
+func isParamOf(v ssa.Value, fn *ssa.Function) bool {
+	for _, p := range fn.Params {
+		if p == v {
+			return true
+		}
+	}
+	// reload of a parameter from its cell
+	if ld, ok := v.(*ssa.UnOp); ok && ld.Op == token.MUL {
+		if al, ok := ld.X.(*ssa.Alloc); ok {
+			for _, ref := range *al.Referrers() {
+				if st, ok := ref.(*ssa.Store); ok && st.Addr == al {
+					if _, isP := st.Val.(*ssa.Parameter); isP {
+						return true
+					}
+				}
+			}
+		}
+	}
+	return false
 }
